@@ -1,6 +1,9 @@
 /- Line-protocol driver: one JSON request per line on stdin, one JSON answer per line on stdout. -/
 import Driver.Core
 import Driver.Layers
+import Driver.CApi
+import Driver.Keys
+import Driver.Cli
 open Lean Driver MlaModel
 
 
@@ -18,6 +21,14 @@ def dispatch (j : Json) : Json :=
   | "enc.open" => cmdEncOpen j
   | "reader.history" => cmdReaderHistory j
   | "archive.read" => cmdArchiveRead j
+  | "capi.run" => cmdCapiRun sha j
+  | "keys.gen" => cmdKeysGen j
+  | "keys.derive" => cmdKeysDerive j
+  | "keys.parse" => cmdKeysParse j
+  | "keys.export" => cmdKeysExport j
+  | "cli.path" => cmdCliPath j
+  | "cli.extract" => cmdCliExtract j
+  | "cli.expect" => cmdCliExpect j
   | c => Json.mkObj [("err", Json.str ("unknown-cmd:" ++ c))]
 
 partial def loop (h : IO.FS.Stream) (out : IO.FS.Stream) : IO Unit := do
